@@ -113,7 +113,7 @@ package cache
 //@   modifies seq(q.Queue()), held(&cache.l)
 //@   local rangeindex int
 //@   loop 0: modifies
-//@   loop 0: invariant -1 <= rangeindex
+//@   loop 0: invariant -1 <= rangeindex && rangeindex <= len(seq(&cache.gop))
 //@   ensures !held(&cache.l)
 //@   ensures len(seq(q.Queue())) == old(len(seq(q.Queue()))) + iteInt(cache.sps != nil, 1, 0) + iteInt(cache.pps != nil, 1, 0) + iteInt(cache.cacheGop, len(seq(&cache.gop)), 0)
 //@   ensures cache.sps != nil ==> seq(q.Queue())[old(len(seq(q.Queue())))] == cache.sps
@@ -151,7 +151,7 @@ package cache
 //@   modifies seq(q.Queue()), held(&cache.l)
 //@   local rangeindex int
 //@   loop 0: modifies
-//@   loop 0: invariant -1 <= rangeindex
+//@   loop 0: invariant -1 <= rangeindex && rangeindex <= len(seq(&cache.gop))
 //@   split cache.metaData != nil, cache.videoSequenceHeader != nil, cache.audioSequenceHeader != nil, len(seq(&cache.gop)) > 0
 //@   ensures !held(&cache.l)
 //@   ensures len(seq(q.Queue())) == old(len(seq(q.Queue()))) + iteInt(cache.metaData != nil, 1, 0) + iteInt(cache.videoSequenceHeader != nil, 1, 0) + iteInt(cache.audioSequenceHeader != nil, 1, 0) + len(seq(&cache.gop))
@@ -192,7 +192,7 @@ package cache
 //@   modifies seq(q.Queue()), held(&cache.l)
 //@   local rangeindex int
 //@   loop 0: modifies
-//@   loop 0: invariant -1 <= rangeindex
+//@   loop 0: invariant -1 <= rangeindex && rangeindex <= len(seq(&cache.gop))
 //@   ensures !held(&cache.l)
 //@   ensures len(seq(q.Queue())) == old(len(seq(q.Queue()))) + iteInt(cache.vps != nil, 1, 0) + iteInt(cache.sps != nil, 1, 0) + iteInt(cache.pps != nil, 1, 0) + iteInt(cache.cacheGop, len(seq(&cache.gop)), 0)
 //@   ensures cache.vps != nil ==> seq(q.Queue())[old(len(seq(q.Queue())))] == cache.vps
